@@ -51,6 +51,7 @@ static void use_item(const jwk_item_t *it) {
 }
 
 // entry: 0 create_strn 1 load_strn(existing) 2 create(cstr) 3 load(existing,cstr) 4 fromfp 5 fromfile(memfd)
+//        6 load_fromfp(existing) 7 load_fromfile(existing); 4/5 alternate between jwks_create_from* and jwks_load_from*(NULL)
 static void load_with_oracle_inner(int entry, int prov, const std::string &bytes);
 // guard = the application has installed its own allocator: nothing it did not hand out may reach its free hook
 static void load_with_oracle(int entry, int prov, const std::string &bytes, bool guard = false) {
@@ -63,20 +64,24 @@ static void load_with_oracle_inner(int entry, int prov, const std::string &bytes
   FStats &st = fs();
   set_provider(prov); set_now(1700000000);
   st.evaluations++;
-  entry %= 6;
+  entry %= 8;
   std::string DOC = bytes;
   if (entry == 2 || entry == 3) DOC = bytes.substr(0, bytes.find('\0'));
   jwk_set_t *set = nullptr; size_t before = 0;
-  if (entry == 1 || entry == 3) { set = jwks_create(GOOD_OCT.c_str()); before = jwks_item_count(set); }
+  if (entry == 1 || entry == 3 || entry == 6 || entry == 7) { set = jwks_create(GOOD_OCT.c_str()); before = jwks_item_count(set); }
+  bool via_create = DOC.size() & 1;
   jwk_set_t *r = nullptr;
   switch (entry) {
   case 0: r = jwks_create_strn(DOC.data(), DOC.size()); break;
   case 1: r = jwks_load_strn(set, DOC.data(), DOC.size()); break;
   case 2: r = jwks_create(DOC.c_str()); break;
   case 3: r = jwks_load(set, DOC.c_str()); break;
-  case 4: { FILE *f = fmemopen((void *)(DOC.empty() ? "" : DOC.data()), DOC.size(), "r"); if (!f) { return; } r = jwks_load_fromfp(nullptr, f); fclose(f); break; }
+  case 4: { FILE *f = fmemopen((void *)(DOC.empty() ? "" : DOC.data()), DOC.size(), "r"); if (!f) { return; } r = via_create ? jwks_create_fromfp(f) : jwks_load_fromfp(nullptr, f); fclose(f); break; }
   case 5: { int fd = memfd_create("jwks", 0); if (fd < 0) return; if (!DOC.empty() && write(fd, DOC.data(), DOC.size()) != (ssize_t)DOC.size()) { close(fd); return; }
-            std::string pth = "/proc/self/fd/" + std::to_string(fd); r = jwks_load_fromfile(nullptr, pth.c_str()); close(fd); break; }
+            std::string pth = "/proc/self/fd/" + std::to_string(fd); r = via_create ? jwks_create_fromfile(pth.c_str()) : jwks_load_fromfile(nullptr, pth.c_str()); close(fd); break; }
+  case 6: { FILE *f = fmemopen((void *)(DOC.empty() ? "" : DOC.data()), DOC.size(), "r"); if (!f) { jwks_free(set); return; } r = jwks_load_fromfp(set, f); fclose(f); break; }
+  case 7: { int fd = memfd_create("jwks", 0); if (fd < 0) { jwks_free(set); return; } if (!DOC.empty() && write(fd, DOC.data(), DOC.size()) != (ssize_t)DOC.size()) { close(fd); jwks_free(set); return; }
+            std::string pth = "/proc/self/fd/" + std::to_string(fd); r = jwks_load_fromfile(set, pth.c_str()); close(fd); break; }
   }
   std::string d = "entry=" + std::to_string(entry) + " prov=" + std::to_string(prov) + " doc=" + DOC.substr(0, 400);
   if (!r) oracle_fail("load-returned-null", d);
@@ -102,6 +107,10 @@ static void load_with_oracle_inner(int entry, int prov, const std::string &bytes
       const jwk_item_t *it = jwks_item_get(r, i);
       if (!it) oracle_fail("item-get-null-below-count", d);
       json_t *el = !keys ? libflags.p : json_is_array(keys) ? json_array_get(keys, i - before) : nullptr;
+      // every reader of the item returns (errored items included)
+      { const char *c = jwks_item_curve(it); volatile size_t sink = c ? strlen(c) : 0; (void)jwks_item_use(it); (void)jwks_item_key_ops(it); (void)jwks_item_alg(it); (void)jwks_item_key_bits(it); (void)jwks_item_is_private(it);
+        const char *k = jwks_item_kid(it); sink = k ? strlen(k) : 0; const char *pm = jwks_item_pem(it); sink = pm ? strlen(pm) : 0; (void)sink;
+        if (k) (void)jwks_find_bykid(r, k); }   // (what it returns is C16's business)
       if (jwks_item_error(it)) {
         st.cls("item-error");
         if (!jwks_item_error_msg(it) || !jwks_item_error_msg(it)[0]) oracle_fail("item-error-without-message", d);
